@@ -31,7 +31,7 @@ use miniscript::bitcoin::secp256k1::{Keypair, Secp256k1, SecretKey, XOnlyPublicK
 use miniscript::bitcoin::taproot::{LeafVersion, TapLeafHash, TapNodeHash, TaprootBuilder};
 use miniscript::bitcoin::{Network, ScriptBuf};
 use miniscript::descriptor::{TapTree, Tr};
-use miniscript::{translate_hash_fail, Descriptor, Miniscript, Tap, Translator};
+use miniscript::{translate_hash_clone, translate_hash_fail, Descriptor, Miniscript, Tap, Translator};
 
 use crate::common::{Out, Rng};
 
@@ -149,6 +149,8 @@ impl Keys {
 }
 
 /// leaf script templates over key `k`, distinct for distinct (template, id)
+impl Keys { fn get(&self, i: usize) -> Pk { self.keys[i] } }
+
 fn leaf_text(tmpl: usize, k: &str, id: usize) -> String {
     match tmpl {
         0 => format!("pk({})", k),
@@ -167,6 +169,9 @@ struct Case {
     dup: bool,                      // some label occurs more than once
     force_commit: bool,             // emit the (large) trcommit line whatever its size
     generic_leaves: bool,           // leaves are arbitrary fragments (shared dimension corpus): no renaming oracle
+    routes: bool,                   // also judge every other construction route / object state (R1, R4)
+    internal_idx: usize,            // index of the internal key in `Keys`
+    key_off: usize,                 // label l uses key l + key_off
     desc_reparse: bool,             // Descriptor::from_str accepts the printed descriptor (false: leaves only Tr::from_str accepts)
     leaves: Vec<Arc<Ms>>,           // by position
     tmpl: Vec<usize>,               // by label
@@ -193,9 +198,10 @@ fn make_case(shape: Shape, keys: &mut Keys, rng: &mut Rng, vary: bool) -> Case {
         tmpl.push(t);
     }
     assert_eq!(by_script.len(), n, "leaf scripts must be pairwise distinct");
-    let internal = keys.key(IK_BASE + rng.below(8));
+    let internal_idx = IK_BASE + rng.below(8);
+    let internal = keys.key(internal_idx);
     let text = shape.to_text();
-    Case { shape, pos_text: text.clone(), text, n, labels: (0..n).collect(), dup: false, force_commit: false, generic_leaves: false, desc_reparse: true, leaves, tmpl, internal, by_script, by_ms }
+    Case { shape, pos_text: text.clone(), text, n, labels: (0..n).collect(), dup: false, force_commit: false, generic_leaves: false, routes: false, internal_idx, key_off: 0, desc_reparse: true, leaves, tmpl, internal, by_script, by_ms }
 }
 
 /// a tree in which the leaf at position i carries script number labels[i] (labels may repeat)
@@ -219,11 +225,40 @@ fn make_dup_case(shape: Shape, labels: Vec<usize>, keys: &mut Keys, rng: &mut Rn
     let leaves = labels.iter().map(|l| scripts[*l].clone()).collect();
     let mut seen = std::collections::HashSet::new();
     let dup = labels.iter().any(|l| !seen.insert(*l));
-    let internal = keys.key(IK_BASE + rng.below(8));
+    let internal_idx = IK_BASE + rng.below(8);
+    let internal = keys.key(internal_idx);
     let mut text = String::new();
     shape.text_labels(&labels, &mut 0, &mut text);
     let pos_text = shape.to_text();
-    Case { shape, text, pos_text, n, labels, dup, force_commit: false, generic_leaves: false, desc_reparse: true, leaves, tmpl, internal, by_script, by_ms }
+    Case { shape, text, pos_text, n, labels, dup, force_commit: false, generic_leaves: false, routes: false, internal_idx, key_off: 0, desc_reparse: true, leaves, tmpl, internal, by_script, by_ms }
+}
+
+/// the general constructor: leaf at position i carries label labels[i]; label l uses template
+/// tmpl[l] over key number l + key_off; internal key number internal_idx
+fn make_case_full(shape: Shape, labels: Vec<usize>, tmpl: Vec<usize>, key_off: usize, internal_idx: usize, keys: &Keys) -> Case {
+    let n = shape.n_leaves();
+    assert_eq!(labels.len(), n);
+    let n_labels = labels.iter().max().unwrap() + 1;
+    assert!(tmpl.len() >= n_labels);
+    let mut scripts = vec![];
+    let mut by_script = HashMap::new();
+    let mut by_ms = HashMap::new();
+    for l in 0..n_labels {
+        let k = keys.get(l + key_off);
+        let ms = Ms::from_str(&leaf_text(tmpl[l], &k.to_string(), l)).expect("leaf template parses");
+        by_script.insert(ms.encode(), l);
+        by_ms.insert(ms.to_string(), l);
+        scripts.push(Arc::new(ms));
+    }
+    let leaves = labels.iter().map(|l| scripts[*l].clone()).collect();
+    let mut seen = std::collections::HashSet::new();
+    let dup = labels.iter().any(|l| !seen.insert(*l));
+    let internal = keys.get(internal_idx);
+    let mut text = String::new();
+    shape.text_labels(&labels, &mut 0, &mut text);
+    let pos_text = shape.to_text();
+    Case { shape, text, pos_text, n, labels, dup, force_commit: false, generic_leaves: false, routes: false, internal_idx, key_off,
+           desc_reparse: true, leaves, tmpl, internal, by_script, by_ms }
 }
 
 /// a tree over arbitrary, pairwise distinct tapscript fragments (by position)
@@ -237,9 +272,10 @@ fn make_case_leaves(shape: Shape, leaves: Vec<Arc<Ms>>, keys: &mut Keys, rng: &m
         by_ms.insert(ms.to_string(), id);
     }
     assert_eq!(by_script.len(), n, "leaf scripts must be pairwise distinct");
-    let internal = keys.key(IK_BASE + rng.below(8));
+    let internal_idx = IK_BASE + rng.below(8);
+    let internal = keys.key(internal_idx);
     let text = shape.to_text();
-    Case { shape, pos_text: text.clone(), text, n, labels: (0..n).collect(), dup: false, force_commit: false, generic_leaves: true, desc_reparse: true,
+    Case { shape, pos_text: text.clone(), text, n, labels: (0..n).collect(), dup: false, force_commit: false, generic_leaves: true, routes: false, internal_idx, key_off: 0, desc_reparse: true,
            leaves, tmpl: vec![0; n], internal, by_script, by_ms }
 }
 
@@ -326,6 +362,43 @@ impl<'a> Translator<String> for FromName<'a> {
     type Error = ();
     fn pk(&mut self, pk: &String) -> Result<Pk, ()> { self.0.get(pk).cloned().ok_or(()) }
     translate_hash_fail!(String);
+}
+
+/// rust-bitcoin's own TaprootBuilder fed with the harness's depth list: output key, root, every
+/// control block, and the library's to_tap_tree conversion
+fn btc_builder_verdict(c: &Case, tr: &Tr<Pk>, secp: &Secp256k1<miniscript::bitcoin::secp256k1::All>) -> String {
+    verdict(|| {
+        let mut ds = vec![];
+        c.shape.depths(0, &mut ds);
+        let mut b = TaprootBuilder::new();
+        for (id, d) in ds.iter().enumerate() {
+            b = b.add_leaf(*d as u8, c.leaves[id].encode()).map_err(|e| format!("oracle add_leaf {}", e))?;
+        }
+        let osi = b.finalize(secp, c.internal).map_err(|_| "oracle finalize".to_string())?;
+        let si = tr.spend_info();
+        if osi.output_key() != si.output_key() { return Err("output_key differs from TaprootBuilder".into()); }
+        if osi.merkle_root() != si.merkle_root() { return Err("merkle_root differs from TaprootBuilder".into()); }
+        for (k, leaf) in si.leaves().enumerate() {
+            // rust-bitcoin keeps a SET of merkle branches per (script, version): a script that
+            // occurs several times has several; the leaf's own branch must be one of them
+            let key = (ScriptBuf::from(leaf.script()), LeafVersion::TapScript);
+            let set = osi.script_map().get(&key).ok_or(format!("leaf {} unknown to TaprootBuilder", k))?;
+            if !set.contains(&leaf.control_block().merkle_branch) { return Err(format!("leaf {} branch not among TaprootBuilder's", k)); }
+            if !c.dup {
+                let ocb = osi.control_block(&key).ok_or(format!("leaf {} unknown to TaprootBuilder", k))?;
+                if &ocb != leaf.control_block() { return Err(format!("leaf {} control block differs", k)); }
+            }
+        }
+        // and the library's own conversion agrees
+        let tt = si.to_tap_tree().ok_or("to_tap_tree none".to_string())?;
+        // (rust-bitcoin orders the leaves of a combined node by child hash, not left-to-right:
+        // compare as sets)
+        let mut got: Vec<(u8, ScriptBuf)> = tt.script_leaves().map(|l| (l.merkle_branch().len() as u8, l.script().to_owned())).collect();
+        let mut want: Vec<(u8, ScriptBuf)> = ds.iter().enumerate().map(|(id, d)| (*d as u8, c.leaves[id].encode())).collect();
+        got.sort(); want.sort();
+        if got != want { return Err("to_tap_tree leaves".into()); }
+        Ok(())
+    })
 }
 
 /// everything for one shape of height <= 128
@@ -459,38 +532,7 @@ fn run_case(out: &mut Out, c: &Case, keys: &Keys, class: &str) {
     });
     out.line(&format!("J rustoracle outkey-tweak {} {}", shape, v), "ok");
     // (3) rust-bitcoin's own TaprootBuilder fed with the harness's depth list
-    let v = verdict(|| {
-        let mut ds = vec![];
-        c.shape.depths(0, &mut ds);
-        let mut b = TaprootBuilder::new();
-        for (id, d) in ds.iter().enumerate() {
-            b = b.add_leaf(*d as u8, c.leaves[id].encode()).map_err(|e| format!("oracle add_leaf {}", e))?;
-        }
-        let osi = b.finalize(secp, c.internal).map_err(|_| "oracle finalize".to_string())?;
-        let si = tr.spend_info();
-        if osi.output_key() != si.output_key() { return Err("output_key differs from TaprootBuilder".into()); }
-        if osi.merkle_root() != si.merkle_root() { return Err("merkle_root differs from TaprootBuilder".into()); }
-        for (k, leaf) in si.leaves().enumerate() {
-            // rust-bitcoin keeps a SET of merkle branches per (script, version): a script that
-            // occurs several times has several; the leaf's own branch must be one of them
-            let key = (ScriptBuf::from(leaf.script()), LeafVersion::TapScript);
-            let set = osi.script_map().get(&key).ok_or(format!("leaf {} unknown to TaprootBuilder", k))?;
-            if !set.contains(&leaf.control_block().merkle_branch) { return Err(format!("leaf {} branch not among TaprootBuilder's", k)); }
-            if !c.dup {
-                let ocb = osi.control_block(&key).ok_or(format!("leaf {} unknown to TaprootBuilder", k))?;
-                if &ocb != leaf.control_block() { return Err(format!("leaf {} control block differs", k)); }
-            }
-        }
-        // and the library's own conversion agrees
-        let tt = si.to_tap_tree().ok_or("to_tap_tree none".to_string())?;
-        // (rust-bitcoin orders the leaves of a combined node by child hash, not left-to-right:
-        // compare as sets)
-        let mut got: Vec<(u8, ScriptBuf)> = tt.script_leaves().map(|l| (l.merkle_branch().len() as u8, l.script().to_owned())).collect();
-        let mut want: Vec<(u8, ScriptBuf)> = ds.iter().enumerate().map(|(id, d)| (*d as u8, c.leaves[id].encode())).collect();
-        got.sort(); want.sort();
-        if got != want { return Err("to_tap_tree leaves".into()); }
-        Ok(())
-    });
+    let v = btc_builder_verdict(c, &tr, secp);
     out.line(&format!("J rustoracle btc-builder {} {}", shape, v), "ok");
     // (4) Tr::leaves / TapTree::leaves / TrSpendInfo::leaves agree (order, depth, script, hash)
     let v = verdict(|| {
@@ -541,7 +583,7 @@ fn run_case(out: &mut Out, c: &Case, keys: &Keys, class: &str) {
         let mut ds = vec![];
         c.shape.depths(0, &mut ds);
         let got: Vec<(usize, String)> = named.leaves().map(|l| (l.depth() as usize, l.miniscript().to_string())).collect();
-        let want: Vec<(usize, String)> = (0..c.n).map(|i| { let l = c.labels[i]; (ds[i], leaf_text(c.tmpl[l], &format!("K{}", l), l)) }).collect();
+        let want: Vec<(usize, String)> = (0..c.n).map(|i| { let l = c.labels[i]; (ds[i], leaf_text(c.tmpl[l], &format!("K{}", l + c.key_off), l)) }).collect();
         if got != want { return Err("leaves after renaming".into()); }
         let inv: HashMap<String, Pk> = keys.names.iter().map(|(k, v)| (v.clone(), *k)).collect();
         let back = named.translate_pk(&mut FromName(&inv)).map_err(|_| "translate back failed".to_string())?;
@@ -581,6 +623,7 @@ fn run_case(out: &mut Out, c: &Case, keys: &Keys, class: &str) {
 
     // ---- byte-level judges: BIP341 commitment, scriptPubKey, addresses ------------------------
     emit_byte_judges(out, secp, &tr, Some(&c.shape), &c.pos_text, c.internal, c.dup || c.force_commit, &AllSigsX, c.generic_leaves);
+    if c.routes { run_routes(out, keys, c, &tree, &tr, &dtext); }
 }
 
 /// a satisfier that has a (dummy) signature for every key in every leaf and satisfies every
@@ -665,6 +708,12 @@ fn oracle_root(s: &Shape, scripts: &[ScriptBuf], next: &mut usize) -> TapNodeHas
 fn emit_byte_judges<K, S>(out: &mut Out, secp: &Secp256k1<miniscript::bitcoin::secp256k1::All>, tr: &Tr<K>,
     shape: Option<&Shape>, pos_text: &str, ik: XOnlyPublicKey, force: bool, sat: &S, lenient: bool)
 where K: miniscript::MiniscriptKey + miniscript::ToPublicKey, S: miniscript::Satisfier<K> {
+    emit_byte_judges_opt(out, secp, tr, shape, pos_text, ik, force, sat, lenient, false)
+}
+/// `lite`: only the commitment line and libsecp's check (no addresses, no witness choice)
+fn emit_byte_judges_opt<K, S>(out: &mut Out, secp: &Secp256k1<miniscript::bitcoin::secp256k1::All>, tr: &Tr<K>,
+    shape: Option<&Shape>, pos_text: &str, ik: XOnlyPublicKey, force: bool, sat: &S, lenient: bool, lite: bool)
+where K: miniscript::MiniscriptKey + miniscript::ToPublicKey, S: miniscript::Satisfier<K> {
     let got = catch_unwind(AssertUnwindSafe(|| {
         let si = tr.spend_info();
         let mut scripts = vec![];
@@ -699,6 +748,7 @@ where K: miniscript::MiniscriptKey + miniscript::ToPublicKey, S: miniscript::Sat
     // scriptPubKey / address, through both entry points, on every network
     let desc = Descriptor::Tr(tr.clone());
     for (net, name) in NETWORKS {
+        if lite { break; }
         let a = guard(|| match desc.address(net) { Ok(a) => format!("{} {}", hx(desc.script_pubkey().as_bytes()), a), Err(e) => format!("- ERR:{}", e.to_string().replace(' ', "_")) });
         out.line(&format!("J traddr descriptor {} {} {}", name, hx(&oq.serialize()), a), "ok");
         let a = guard(|| format!("{} {}", hx(tr.script_pubkey().as_bytes()), tr.address(net)));
@@ -706,7 +756,7 @@ where K: miniscript::MiniscriptKey + miniscript::ToPublicKey, S: miniscript::Sat
     }
     // the control block CHOSEN by the satisfier (all signatures available, no key-spend
     // signature): the witness ends with (script, control block); judged by the specification
-    if let Some(root) = oroot {
+    if let (Some(root), false) = (oroot, lite) {
         let w = catch_unwind(AssertUnwindSafe(|| tr.get_satisfaction(sat)));
         match w {
             Ok(Ok((wit, _))) if wit.len() >= 2 => {
@@ -782,7 +832,7 @@ fn run_too_deep(out: &mut Out, c: &Case) {
         // renumber: build the two subtrees on fresh leaves 0..
         let sub = node(l.clone(), r.clone());
         let n = sub.n_leaves();
-        let cc = Case { shape: sub.clone(), text: sub.to_text(), pos_text: sub.to_text(), labels: (0..n).collect(), dup: false, force_commit: false, generic_leaves: false, desc_reparse: true, n, leaves: c.leaves[..n].to_vec(), tmpl: c.tmpl[..n].to_vec(),
+        let cc = Case { shape: sub.clone(), text: sub.to_text(), pos_text: sub.to_text(), labels: (0..n).collect(), dup: false, force_commit: false, generic_leaves: false, routes: false, internal_idx: 0, key_off: 0, desc_reparse: true, n, leaves: c.leaves[..n].to_vec(), tmpl: c.tmpl[..n].to_vec(),
             internal: c.internal, by_script: c.by_script.clone(), by_ms: c.by_ms.clone() };
         let mut next = 0;
         if let (Ok(lt), Ok(rt)) = (build_combine(l, &cc, &mut next), build_combine(r, &cc, &mut next)) {
@@ -790,6 +840,291 @@ fn run_too_deep(out: &mut Out, c: &Case) {
             out.line(&format!("C tapcombine {} {}", depth_only(&lt), depth_only(&rt)), &ans);
         }
     }
+}
+
+/* ------------------------------------------------------- construction routes and object states */
+
+type SpendItem = (u8, ScriptBuf, Vec<TapNodeHash>);
+
+/// the `merklespec` answer (root and control-block entries as terms) from collected items
+fn terms_answer(c: &Case, root: Option<TapNodeHash>, items: &[SpendItem]) -> String {
+    let mut table = HashMap::new();
+    hash_shape(&c.shape, c, &mut 0, &mut table);
+    let term = |h: &TapNodeHash| table.get(h).cloned().unwrap_or_else(|| "?".into());
+    let mut s = match root { Some(h) => term(&h), None => "NOROOT".into() };
+    for (d, script, br) in items {
+        let id = c.by_script.get(script).map(|i| i.to_string()).unwrap_or("?".into());
+        let br: Vec<String> = br.iter().map(|h| term(h)).collect();
+        s.push_str(&format!("|{}:{}:{}", d, id, if br.is_empty() { "-".into() } else { br.join("/") }));
+    }
+    s
+}
+fn ids_of<'a>(c: &Case, items: impl Iterator<Item = miniscript::descriptor::TapTreeIterItem<'a, Pk>>) -> String {
+    let v: Vec<String> = items.map(|l| format!("{}:{}", l.depth(),
+        c.by_ms.get(&l.miniscript().to_string()).map(|i| i.to_string()).unwrap_or("?".into()))).collect();
+    if v.is_empty() { "-".into() } else { v.join(",") }
+}
+
+/// ONE MORE `Tr` object that must describe the tree of `c` (another construction route, or the
+/// same object in another state): leaves / order / depths, merkle root and every control block by
+/// the Lean specification, output key + control blocks by rust-bitcoin's TaprootBuilder, and (small
+/// trees) the byte-level commitment incl. output key and parity.
+fn judge_obj(out: &mut Out, keys: &Keys, c: &Case, tr: &Tr<Pk>, route: &str, bytes: bool) {
+    out.count(&format!("route:{}", route));
+    let d = guard(|| tr.tap_tree().map(|t| depth_ids(t, c)).unwrap_or("NOTREE".into()));
+    out.line(&format!("J rdepthspec {} {} {}", route, c.text, d), "ok");
+    let ans = guard(|| {
+        let si = tr.spend_info();
+        let items: Vec<SpendItem> = si.leaves().map(|l| (l.depth(), ScriptBuf::from(l.script()), l.control_block().merkle_branch.iter().cloned().collect())).collect();
+        terms_answer(c, si.merkle_root(), &items)
+    });
+    out.line(&format!("J {} {} {} {}", if c.dup { "rmerklespecl" } else { "rmerklespec" }, route, c.text, ans), "ok");
+    out.line(&format!("J rustoracle route-{}-btc-builder {} {}", route, c.text, btc_builder_verdict(c, tr, &keys.secp)), "ok");
+    if bytes { emit_byte_judges_opt(out, &keys.secp, tr, Some(&c.shape), &c.pos_text, c.internal, false, &AllSigsX, true, true); }
+}
+
+struct Ident;
+impl Translator<Pk> for Ident {
+    type TargetPk = Pk;
+    type Error = ();
+    fn pk(&mut self, pk: &Pk) -> Result<Pk, ()> { Ok(*pk) }
+    translate_hash_clone!(Pk);
+}
+/// K_i -> K_{i+2000} for leaf keys, internal key number j -> j + 8
+struct Shift<'a>(&'a Keys);
+impl<'a> Translator<Pk> for Shift<'a> {
+    type TargetPk = Pk;
+    type Error = ();
+    fn pk(&mut self, pk: &Pk) -> Result<Pk, ()> {
+        let i: usize = self.0.names.get(pk).ok_or(())?[1..].parse().map_err(|_| ())?;
+        Ok(self.0.get(if i >= IK_BASE { i + 8 } else { i + 2000 }))
+    }
+    translate_hash_fail!(Pk);
+}
+
+/// R1 (every construction route) and R4 (every object state) for one case whose two basic routes
+/// (`Tr::from_str`, `Tr::new` over `TapTree::combine`) have just been judged on `tr`
+fn run_routes(out: &mut Out, keys: &Keys, c: &Case, tree: &TapTree<Pk>, tr: &Tr<Pk>, dtext: &str) {
+    let small = c.n <= 40;
+    let fail = |out: &mut Out, what: &str, why: String| out.line(&format!("J rustoracle route-{} {} fail:{}", what, c.text, why.replace(' ', "_")), "ok");
+    // ---- R1: Descriptor::new_tr, Descriptor::from_str
+    match catch_unwind(AssertUnwindSafe(|| Descriptor::new_tr(c.internal, Some(tree.clone())))) {
+        Ok(Ok(Descriptor::Tr(t))) => judge_obj(out, keys, c, &t, "Descriptor::new_tr", small),
+        Ok(Ok(_)) => fail(out, "Descriptor::new_tr", "not a tr".into()),
+        Ok(Err(e)) => fail(out, "Descriptor::new_tr", e.to_string()),
+        Err(_) => fail(out, "Descriptor::new_tr", "PANIC".into()),
+    }
+    if c.desc_reparse {
+        match catch_unwind(AssertUnwindSafe(|| Descriptor::<Pk>::from_str(dtext))) {
+            Ok(Ok(Descriptor::Tr(t))) => judge_obj(out, keys, c, &t, "Descriptor::from_str", false),
+            Ok(Ok(_)) => fail(out, "Descriptor::from_str", "not a tr".into()),
+            Ok(Err(e)) => fail(out, "Descriptor::from_str", e.to_string()),
+            Err(_) => fail(out, "Descriptor::from_str", "PANIC".into()),
+        }
+    }
+    // ---- R4: the spend-info cache.  `tr` has been used by all the judges above.
+    judge_obj(out, keys, c, tr, "used-again", false);
+    judge_obj(out, keys, c, &tr.clone(), "clone-of-used", false);
+    if let Ok(Ok(fresh)) = catch_unwind(AssertUnwindSafe(|| Tr::new(c.internal, Some(tree.clone())))) {
+        let twin = fresh.clone();                 // cloned while the cache was empty
+        let _ = guard(|| { let _ = fresh.script_pubkey(); let _ = fresh.address(Network::Regtest); fresh.spend_info().leaves().count().to_string() });
+        judge_obj(out, keys, c, &twin, "clone-of-fresh", false);
+        judge_obj(out, keys, c, &fresh, "after-script_pubkey-address", false);
+    }
+    // ---- R1/R4: translate_pk of a used object: identity, and a renaming to other keys
+    match catch_unwind(AssertUnwindSafe(|| tr.translate_pk(&mut Ident))) {
+        Ok(Ok(t)) => judge_obj(out, keys, c, &t, "translate_pk-identity-of-used", false),
+        Ok(Err(_)) => fail(out, "translate_pk-identity", "error".into()),
+        Err(_) => fail(out, "translate_pk-identity", "PANIC".into()),
+    }
+    if !c.generic_leaves && c.key_off == 0 {
+        let cb = make_case_full(c.shape.clone(), c.labels.clone(), c.tmpl.clone(), 2000, c.internal_idx + 8, keys);
+        match catch_unwind(AssertUnwindSafe(|| tr.translate_pk(&mut Shift(keys)))) {
+            Ok(Ok(t)) => judge_obj(out, keys, &cb, &t, "translate_pk-other-keys", small),
+            Ok(Err(_)) => fail(out, "translate_pk-other-keys", "error".into()),
+            Err(_) => fail(out, "translate_pk-other-keys", "PANIC".into()),
+        }
+    }
+    // ---- R4: iterators consumed partially / from both ends / two at once
+    let v = guard(|| { let mut it = tr.leaves(); for _ in 0..c.n / 2 { it.next(); } drop(it); ids_of(c, tr.leaves()) });
+    out.line(&format!("J rdepthspec Tr::leaves-restarted-after-partial-use {} {}", c.text, v), "ok");
+    let v = guard(|| {
+        let mut it = tr.leaves();
+        let (mut front, mut back) = (vec![], vec![]);
+        loop {
+            match it.next() { Some(x) => front.push(x), None => break }
+            match it.next_back() { Some(x) => back.push(x), None => break }
+        }
+        back.reverse(); front.extend(back);
+        ids_of(c, front.into_iter())
+    });
+    out.line(&format!("J rdepthspec Tr::leaves-from-both-ends {} {}", c.text, v), "ok");
+    let two = catch_unwind(AssertUnwindSafe(|| {
+        let si = tr.spend_info();
+        let (mut i1, mut i2, mut i3) = (si.leaves(), si.leaves(), si.leaves());
+        let _ = i3.next();                         // a third, abandoned after one item
+        let (mut a, mut b): (Vec<SpendItem>, Vec<SpendItem>) = (vec![], vec![]);
+        let item = |l: miniscript::descriptor::TrSpendInfoIterItem<Pk>| -> SpendItem { (l.depth(), ScriptBuf::from(l.script()), l.control_block().merkle_branch.iter().cloned().collect()) };
+        loop {
+            let x = i1.next(); let y = if a.len() % 2 == 0 { i2.next() } else { None };
+            let done = x.is_none();
+            if let Some(x) = x { a.push(item(x)); }
+            if let Some(y) = y { b.push(item(y)); }
+            if done { break; }
+        }
+        for y in i2 { b.push(item(y)); }
+        (terms_answer(c, si.merkle_root(), &a), terms_answer(c, si.merkle_root(), &b))
+    }));
+    let op = if c.dup { "rmerklespecl" } else { "rmerklespec" };
+    match two {
+        Ok((a, b)) => {
+            out.line(&format!("J {} TrSpendInfo::leaves-interleaved-first {} {}", op, c.text, a), "ok");
+            out.line(&format!("J {} TrSpendInfo::leaves-interleaved-second {} {}", op, c.text, b), "ok");
+        }
+        Err(_) => fail(out, "TrSpendInfo::leaves-interleaved", "PANIC".into()),
+    }
+    // ---- R1: what a PSBT carries (update, serialize, deserialize)
+    if small && c.desc_reparse { psbt_route(out, c, dtext); }
+}
+
+/// the tap tree through a PSBT: `update_with_descriptor_unchecked` on an input and an output, PSBT
+/// bytes, back; judged by the Lean specification (J trpsbt)
+fn psbt_route(out: &mut Out, c: &Case, dtext: &str) {
+    use miniscript::bitcoin::{absolute, psbt, transaction, Amount, Psbt, Transaction, TxIn, TxOut};
+    use miniscript::psbt::{PsbtInputExt, PsbtOutputExt};
+    use miniscript::DefiniteDescriptorKey;
+    let r = catch_unwind(AssertUnwindSafe(|| -> Result<String, String> {
+        let desc = Descriptor::<DefiniteDescriptorKey>::from_str(dtext).map_err(|e| format!("parse {}", e))?;
+        let mut inp = psbt::Input::default();
+        inp.update_with_descriptor_unchecked(&desc).map_err(|e| format!("input update {}", e))?;
+        let mut outp = psbt::Output::default();
+        outp.update_with_descriptor_unchecked(&desc).map_err(|e| format!("output update {}", e))?;
+        let tx = Transaction { version: transaction::Version::TWO, lock_time: absolute::LockTime::ZERO, input: vec![TxIn::default()],
+            output: vec![TxOut { value: Amount::from_sat(1000), script_pubkey: desc.script_pubkey() }] };
+        let mut p = Psbt::from_unsigned_tx(tx).map_err(|e| e.to_string())?;
+        p.inputs[0] = inp; p.outputs[0] = outp;
+        let q = Psbt::deserialize(&p.serialize()).map_err(|e| format!("psbt bytes {}", e))?;
+        let tt = q.outputs[0].tap_tree.as_ref().ok_or("no tap_tree in the output")?;
+        let outl: Vec<String> = tt.script_leaves().map(|l| format!("{}:{}", l.merkle_branch().len(), hx(l.script().as_bytes()))).collect();
+        let inl: Vec<String> = q.inputs[0].tap_scripts.iter().map(|(cb, (sc, _))| format!("{}:{}", hx(&cb.serialize()), hx(sc.as_bytes()))).collect();
+        let ik = q.inputs[0].tap_internal_key.ok_or("no tap_internal_key")?;
+        if q.outputs[0].tap_internal_key != Some(ik) { return Err("output tap_internal_key".into()); }
+        let root = q.inputs[0].tap_merkle_root.ok_or("no tap_merkle_root")?;
+        let scripts: Vec<String> = c.leaves.iter().map(|m| hx(m.encode().as_bytes())).collect();
+        Ok(format!("{} {} {} {} {} {}", c.pos_text, scripts.join(","), hx(&ik.serialize()), root, outl.join(","), inl.join(",")))
+    }));
+    match r {
+        Ok(Ok(args)) => { out.count("route:psbt"); out.line(&format!("J trpsbt {}", args), "ok") }
+        Ok(Err(e)) => out.line(&format!("J rustoracle route-psbt {} fail:{}", c.text, e.replace(' ', "_")), "ok"),
+        Err(_) => out.line(&format!("J rustoracle route-psbt {} fail:PANIC", c.text), "ok"),
+    }
+}
+
+/// the shape a pre-order depth list describes
+fn shape_of_depths(ds: &[usize]) -> Option<Shape> {
+    fn go(ds: &[usize], pos: &mut usize, d: usize) -> Option<Shape> {
+        let k = *ds.get(*pos)?;
+        if k == d { *pos += 1; Some(Leaf) } else if k < d || d > 200 { None } else { let l = go(ds, pos, d + 1)?; let r = go(ds, pos, d + 1)?; Some(node(l, r)) }
+    }
+    let mut pos = 0;
+    let s = go(ds, &mut pos, 0)?;
+    if pos == ds.len() { Some(s) } else { None }
+}
+
+/// R1: the policy compiler's route.  The policy mirrors the shape with equal odds at every `or`, so
+/// leaf i has probability 2^-depth(i) and every Huffman tree puts it at exactly that depth (siblings
+/// in whatever order).  Leaves are and(pk(K_i),older(i+1)) so that no key is pulled out as internal key.
+fn run_compile_route(out: &mut Out, keys: &Keys, shape: &Shape) {
+    fn pol(s: &Shape, keys: &Keys, next: &mut usize, o: &mut String) {
+        match s {
+            Leaf => { o.push_str(&format!("and(pk({}),older({}))", keys.get(*next), *next + 1)); *next += 1; }
+            Node(l, r) => { o.push_str("or(1@"); pol(l, keys, next, o); o.push_str(",1@"); pol(r, keys, next, o); o.push(')'); }
+        }
+    }
+    let n = shape.n_leaves();
+    let text = shape.to_text();
+    let mut ptext = String::new();
+    pol(shape, keys, &mut 0, &mut ptext);
+    let by_ms: HashMap<String, usize> = (0..n).map(|i| (leaf_text(1, &keys.get(i).to_string(), i), i)).collect();
+    let res = catch_unwind(AssertUnwindSafe(|| -> Result<Descriptor<Pk>, String> {
+        let p = miniscript::policy::Concrete::<Pk>::from_str(&ptext).map_err(|e| format!("policy parse {}", e))?;
+        p.compile_tr(Some(keys.get(IK_BASE))).map_err(|e| format!("{}", e))
+    }));
+    let deep = shape.height() > 128;
+    match res {
+        Ok(Ok(Descriptor::Tr(tr))) => {
+            let listed: Vec<(usize, Option<usize>)> = tr.leaves().map(|l| (l.depth() as usize, by_ms.get(&l.miniscript().to_string()).copied())).collect();
+            out.line(&format!("J trdepthset compile_tr {} {}", text,
+                listed.iter().map(|(d, i)| format!("{}:{}", d, i.map(|x| x.to_string()).unwrap_or("?".into()))).collect::<Vec<_>>().join(",")), "ok");
+            let ds: Vec<usize> = listed.iter().map(|x| x.0).collect();
+            match (shape_of_depths(&ds), listed.iter().all(|x| x.1.is_some())) {
+                (Some(s2), true) => {
+                    let c2 = make_case_full(s2, listed.iter().map(|x| x.1.unwrap()).collect(), vec![1; n], 0, IK_BASE, keys);
+                    judge_obj(out, keys, &c2, &tr, "compile_tr", n <= 40);
+                }
+                _ => out.line(&format!("J rustoracle route-compile_tr {} fail:depth_list_is_not_a_tree_of_the_policy's_leaves", text), "ok"),
+            }
+        }
+        Ok(Ok(_)) => out.line(&format!("J rustoracle route-compile_tr {} fail:not_a_tr", text), "ok"),
+        Ok(Err(_)) if deep => out.line(&format!("J trrefused compile_tr-depth-{} {} ERR", shape.height(), text), "ok"),
+        Ok(Err(e)) => out.line(&format!("J rustoracle route-compile_tr {} fail:{}", text, e.replace(' ', "_")), "ok"),
+        // a policy whose Huffman tree is deeper than 128 makes `with_huffman_tree` panic on its
+        // `expect`: a constructor panic is outside this property's statement (observation)
+        Err(_) if deep => out.count("observation: compile_tr panics on a policy whose Huffman tree is deeper than 128"),
+        Err(_) => out.line(&format!("J rustoracle route-compile_tr {} fail:PANIC", text), "ok"),
+    }
+}
+
+/// R2/R3: inputs that are refused TODAY for exactly one reason each; an accepting library gives a
+/// judged failure (J trrefused answers ok only for ERR)
+fn refused_today(out: &mut Out, keys: &Keys) {
+    use miniscript::bitcoin::PublicKey;
+    let k = |i: usize| keys.get(i).to_string();
+    let ik = k(IK_BASE);
+    let unc = crate::ast::full_key(100).to_string();         // uncompressed
+    let full = |i: u32| crate::ast::full_key(i).to_string();
+    let mut v: Vec<(&str, String)> = vec![
+        ("brace-one-child", format!("tr({},{{pk({})}})", ik, k(0))),
+        ("brace-three-children", format!("tr({},{{pk({}),pk({}),pk({})}})", ik, k(0), k(1), k(2))),
+        ("brace-three-children-nested", format!("tr({},{{pk({}),{{pk({}),pk({}),pk({})}}}})", ik, k(0), k(1), k(2), k(3))),
+        ("brace-empty", format!("tr({},{{}})", ik)),
+        ("brace-empty-right", format!("tr({},{{pk({}),}})", ik, k(0))),
+        ("brace-empty-left", format!("tr({},{{,pk({})}})", ik, k(0))),
+        ("brace-single-nested", format!("tr({},{{{{pk({}),pk({})}}}})", ik, k(0), k(1))),
+        ("brace-named", format!("tr({},x{{pk({}),pk({})}})", ik, k(0), k(1))),
+        ("brace-unbalanced", format!("tr({},{{pk({}),pk({})}}}})", ik, k(0), k(1))),
+        ("paren-for-brace", format!("tr({},(pk({}),pk({})))", ik, k(0), k(1))),
+        ("three-arguments", format!("tr({},pk({}),pk({}))", ik, k(0), k(1))),
+        ("empty-tree-argument", format!("tr({},)", ik)),
+        ("no-arguments", "tr()".to_string()),
+        ("leaf-multi-not-in-tapscript", format!("tr({},multi(1,{}))", ik, k(0))),
+        ("leaf-not-type-B", format!("tr({},v:pk({}))", ik, k(0))),
+        ("leaf-type-K", format!("tr({},pk_k({}))", ik, k(0))),
+    ];
+    for (cls, text) in v.drain(..) {
+        let r = match catch_unwind(AssertUnwindSafe(|| Tr::<Pk>::from_str(&text))) { Ok(Ok(_)) => "accepted", Ok(Err(_)) => "ERR", Err(_) => "PANIC" };
+        out.line(&format!("J trrefused {} {} {}", cls, text, r), "ok");
+        let r = match catch_unwind(AssertUnwindSafe(|| Descriptor::<Pk>::from_str(&text))) { Ok(Ok(_)) => "accepted", Ok(Err(_)) => "ERR", Err(_) => "PANIC" };
+        out.line(&format!("J trrefused descriptor-{} {} {}", cls, text, r), "ok");
+    }
+    // uncompressed keys, through every constructor that takes a full key
+    let texts = [("uncompressed-internal-key", format!("tr({})", unc)),
+                 ("uncompressed-internal-key-with-tree", format!("tr({},pk({}))", unc, full(1))),
+                 ("uncompressed-leaf-key", format!("tr({},pk({}))", full(0), unc)),
+                 ("uncompressed-leaf-key-in-multi_a", format!("tr({},multi_a(1,{},{}))", full(0), full(1), unc))];
+    for (cls, text) in texts {
+        let r = match catch_unwind(AssertUnwindSafe(|| Tr::<PublicKey>::from_str(&text))) { Ok(Ok(_)) => "accepted", Ok(Err(_)) => "ERR", Err(_) => "PANIC" };
+        out.line(&format!("J trrefused {} {} {}", cls, text, r), "ok");
+        let r = match catch_unwind(AssertUnwindSafe(|| Descriptor::<PublicKey>::from_str(&text))) { Ok(Ok(_)) => "accepted", Ok(Err(_)) => "ERR", Err(_) => "PANIC" };
+        out.line(&format!("J trrefused descriptor-{} {} {}", cls, text, r), "ok");
+    }
+    let u = crate::ast::full_key(100);
+    let r = match catch_unwind(AssertUnwindSafe(|| Tr::<PublicKey>::new(u, None))) { Ok(Ok(_)) => "accepted", Ok(Err(_)) => "ERR", Err(_) => "PANIC" };
+    out.line(&format!("J trrefused Tr::new-uncompressed-internal-key {} {}", unc, r), "ok");
+    let r = match catch_unwind(AssertUnwindSafe(|| Descriptor::<PublicKey>::new_tr(u, None))) { Ok(Ok(_)) => "accepted", Ok(Err(_)) => "ERR", Err(_) => "PANIC" };
+    out.line(&format!("J trrefused Descriptor::new_tr-uncompressed-internal-key {} {}", unc, r), "ok");
+    let r = match catch_unwind(AssertUnwindSafe(|| Miniscript::<PublicKey, Tap>::from_str(&format!("pk({})", unc)))) { Ok(Ok(_)) => "accepted", Ok(Err(_)) => "ERR", Err(_) => "PANIC" };
+    out.line(&format!("J trrefused tap-leaf-uncompressed-key pk({}) {}", unc, r), "ok");
 }
 
 /* ---------------------------------------------------------------- full keys, derived keys */
@@ -1060,7 +1395,7 @@ pub fn run(out: &mut Out, thorough: bool, seed: u64) {
     if std::env::var("VERIF_PANIC_VERBOSE").is_err() { std::panic::set_hook(Box::new(|_| {})); }
     let mut rng = Rng(seed ^ 0xC15);
     let mut keys = Keys::new();
-    for i in 0..8 { keys.key(IK_BASE + i); }
+    for i in 0..16 { keys.key(IK_BASE + i); }
 
     // 0. key-only descriptor: output key = tweak with no root
     {
@@ -1084,7 +1419,8 @@ pub fn run(out: &mut Out, thorough: bool, seed: u64) {
     let mut n_shapes = 0;
     for n in 1..=max_all {
         for s in all_shapes(n, &mut memo) {
-            let c = make_case(s, &mut keys, &mut rng, false);
+            let mut c = make_case(s, &mut keys, &mut rng, false);
+            c.routes = n <= 6;               // every other construction route and object state (R1, R4)
             run_case(out, &c, &keys, "exhaustive");
             n_shapes += 1;
         }
@@ -1092,7 +1428,8 @@ pub fn run(out: &mut Out, thorough: bool, seed: u64) {
     // the same shapes again with varied leaf scripts (sampled in quick)
     for n in 1..=(if thorough { 7 } else { 5 }) {
         for s in all_shapes(n, &mut memo) {
-            let c = make_case(s, &mut keys, &mut rng, true);
+            let mut c = make_case(s, &mut keys, &mut rng, true);
+            c.routes = n <= 4;
             run_case(out, &c, &keys, "exhaustive-varied-leaves");
         }
     }
@@ -1102,7 +1439,8 @@ pub fn run(out: &mut Out, thorough: bool, seed: u64) {
     };
     for &d in &comb_depths {
         for s in [left_comb(d), right_comb(d)] {
-            let c = make_case(s, &mut keys, &mut rng, false);
+            let mut c = make_case(s, &mut keys, &mut rng, false);
+            c.routes = d >= 126 || d <= 3;
             run_case(out, &c, &keys, "comb");
         }
     }
@@ -1136,7 +1474,8 @@ pub fn run(out: &mut Out, thorough: bool, seed: u64) {
         for n in 2..=max_n {
             for s in all_shapes(n, &mut memo) {
                 for labels in dup_labelings(n, &mut rng, if thorough { 3 } else { 1 }) {
-                    let c = make_dup_case(s.clone(), labels, &mut keys, &mut rng, false);
+                    let mut c = make_dup_case(s.clone(), labels, &mut keys, &mut rng, false);
+                    c.routes = true;
                     run_case(out, &c, &keys, "repeated-leaves");
                 }
             }
@@ -1244,6 +1583,7 @@ pub fn run(out: &mut Out, thorough: bool, seed: u64) {
                 }
                 assert_eq!(s.height(), 128);
                 let mut c = make_case(s, &mut keys, &mut rng, false);
+                c.routes = true;
                 c.force_commit = bi == 0 && side < 2 && thorough;
                 run_case(out, &c, &keys, "adjacent-128-pairs");
             }
@@ -1270,7 +1610,8 @@ pub fn run(out: &mut Out, thorough: bool, seed: u64) {
         if shallow_first { labels[n - 1] = 0; } else { labels[n - 1] = 0; labels[0] = 0; for (i, l) in labels.iter_mut().enumerate().skip(1).take(n - 2) { *l = i; } }
         // gap-free relabelling
         let mut map = HashMap::new(); for x in labels.iter_mut() { let k = map.len(); *x = *map.entry(*x).or_insert(k); }
-        let c = make_dup_case(chain, labels, &mut keys, &mut rng, false);
+        let mut c = make_dup_case(chain, labels, &mut keys, &mut rng, false);
+        c.routes = true;
         run_case(out, &c, &keys, "same-script-two-depths");
     }
     // 4i. leaves from the shared dimension corpus (all hash kinds, both lock units, distinct same-unit
@@ -1299,7 +1640,7 @@ pub fn run(out: &mut Out, thorough: bool, seed: u64) {
             if group.is_empty() { continue; }
             // all of them in one random tree, then in chunks of up to 6 over sampled small shapes
             let s = random_shape(group.len(), &mut rng);
-            if s.height() <= 128 { let mut c = make_case_leaves(s, group.clone(), &mut keys, &mut rng); c.desc_reparse = strict; run_case(out, &c, &keys, "corpus-leaves"); }
+            if s.height() <= 128 { let mut c = make_case_leaves(s, group.clone(), &mut keys, &mut rng); c.desc_reparse = strict; c.routes = true; run_case(out, &c, &keys, "corpus-leaves"); }
             let mut i = 0;
             while i < group.len() {
                 let n = (1 + rng.below(6)).min(group.len() - i);
@@ -1307,11 +1648,25 @@ pub fn run(out: &mut Out, thorough: bool, seed: u64) {
                 let s = shapes[rng.below(shapes.len())].clone();
                 let mut c = make_case_leaves(s, group[i..i + n].to_vec(), &mut keys, &mut rng);
                 c.desc_reparse = strict;
+                c.routes = true;
                 run_case(out, &c, &keys, "corpus-leaves");
                 i += n;
             }
         }
     }
+    // 4j. the policy compiler's route (Huffman tree) over ALL shapes with <= 6 leaves, combs of depth
+    // 126..129, and a depth-128 pair on the left / right / in the middle
+    {
+        for n in 1..=6 { for s in all_shapes(n, &mut memo) { run_compile_route(out, &keys, &s); } }
+        for d in 126..=129 { run_compile_route(out, &keys, &left_comb(d)); run_compile_route(out, &keys, &right_comb(d)); }
+        for side in 0..3 {
+            let mut s = node(node(Leaf, Leaf), node(Leaf, Leaf));
+            for lvl in 0..126 { let left = match side { 0 => true, 1 => false, _ => lvl % 2 == 0 }; s = if left { node(s, Leaf) } else { node(Leaf, s) }; }
+            run_compile_route(out, &keys, &s);
+        }
+    }
+    // 4k. inputs refused today for exactly one reason each (R2, R3)
+    refused_today(out, &keys);
     // 5. too deep: must be rejected
     let mut deep = vec![left_comb(129), right_comb(129), left_comb(130), right_comb(200), node(left_comb(128), Leaf), node(Leaf, right_comb(128)), node(right_comb(128), left_comb(3))];
     for _ in 0..(if thorough { 40 } else { 6 }) { deep.push(caterpillar(129 + rng.below(3), &mut rng, false, 200)); }
@@ -1319,6 +1674,6 @@ pub fn run(out: &mut Out, thorough: bool, seed: u64) {
         let c = make_case(s, &mut keys, &mut rng, false);
         run_too_deep(out, &c);
     }
-    out.note("domain", format!("all {} tree shapes with <= {} leaves; left/right combs at depths {:?}; {} random caterpillars to depth 128; {} random shapes up to {} leaves; too-deep shapes (129..200)", n_shapes, max_all, if thorough { vec![1usize, 128] } else { comb_depths.clone() }, n_cat, n_rand, max_leaves));
+    out.note("domain", format!("all {} tree shapes with <= {} leaves; left/right combs at depths {:?}; {} random caterpillars to depth 128; {} random shapes up to {} leaves; too-deep shapes (129..200); ROUTES: every shape with <= 6 leaves, combs of depth <= 3 and 126..128, depth-128 pairs under left/right/zig-zag spines, repeated-leaf trees and the dimension-corpus trees through Tr::from_str, Tr::new(TapTree::combine), Descriptor::new_tr, Descriptor::from_str, translate_pk (identity and to other keys), compile_tr (Huffman; also depth 129), PSBT update+bytes; STATES: spend info fresh / cached / clone of used / clone of fresh / after script_pubkey+address / translated from used, leaf iterators restarted, from both ends, two interleaved; refused-today inputs (brace arity, uncompressed keys, non-tapscript leaves)", n_shapes, max_all, if thorough { vec![1usize, 128] } else { comb_depths.clone() }, n_cat, n_rand, max_leaves));
     out.note("distinct_nontrivial", format!("{}", out.hist.iter().filter(|(k, _)| k.starts_with("shapes:")).map(|(_, v)| *v).sum::<u64>()));
 }
